@@ -57,6 +57,9 @@ func (x *Exec) execInstr(fr *Frame, b *ssa.BasicBlock, st *State, in ssa.Instruc
 		p := x.val(fr, in.Addr)
 		x.checkNonNil(fr, st, p, in.Pos(), "store")
 		v := x.coerce(x.val(fr, in.Val), in.Addr.Type().(*types.Pointer).Elem())
+		if v.K == KSlice && p.P.Cell == nil && len(p.P.Path) == 0 && x.zeroOffBases != nil && x.zeroOffBases[p.P.Base.String()] {
+			x.oblige(fr, st, "ensures", "", "captured-slice-stays-at-offset-0", Eq(v.Off, IntLit(0)), in.Pos(), "zerooffsets (captured slice variable)")
+		}
 		x.store(st, p.P, v)
 	case *ssa.FieldAddr:
 		p := x.val(fr, in.X)
